@@ -2,6 +2,7 @@ package gen
 
 import (
 	"fmt"
+	"math"
 
 	"verif/harness/internal/core"
 	"verif/harness/internal/model"
@@ -260,6 +261,11 @@ func (g *SQLGen) Select5(t *model.Table) *proto.NStmt {
 	case 2:
 		n.HasLimit, n.Limit = true, r.Intn(8)
 		n.HasOffset, n.Offset = true, r.Intn(8)
+	}
+	if r.Chance(1, 25) {
+		// the largest values the clauses can carry ("all rows from the n-th on")
+		n.HasLimit, n.Limit = true, []int{math.MaxInt64, math.MaxInt64 - 1, 1 << 62}[r.Intn(3)]
+		n.HasOffset, n.Offset = r.Bool(), []int{1, 2, math.MaxInt64}[r.Intn(3)]
 	}
 	return n
 }
